@@ -786,16 +786,18 @@ def check_clip_to_viewbox(repo: Repo, rep: Report, rule: str):
     probs: List[str] = []
     n = 0
     for vb, boxes, expect in [
-        ("0 0 10 10", {"in": (2, 2, 4, 4), "out": (20, 20, 30, 30), "cut": (5, 5, 15, 15), "left": (-5, 1, 5, 2), "exact": (0, 0, 10, 10), "tall": (2, 5, 4, 15), "wide": (5, 2, 15, 4)},
-         {"in": None, "cut": (5, 5, 5, 5), "left": (0, 1, 5, 1), "exact": None, "tall": (2, 5, 2, 5), "wide": (5, 2, 5, 2)}),
+        ("0 0 10 10", {"in": (2, 2, 4, 4), "out": (20, 20, 30, 30), "cut": (5, 5, 15, 15), "left": (-5, 1, 5, 2), "exact": (0, 0, 10, 10), "tall": (2, 5, 4, 15), "wide": (5, 2, 15, 4),
+                       "ring": (4, 4, 16, 16)},
+         {"in": None, "cut": (5, 5, 5, 5), "left": (0, 1, 5, 1), "exact": None, "tall": (2, 5, 2, 5), "wide": (5, 2, 5, 2), "ring": (4, 4, 6, 6)}),
         ("-50 -50 100 100", {"in": (-40, -40, 40, 40), "cut": (40, 40, 60, 60), "out": (60, 0, 70, 10), "neg": (-60, -60, -40, -40)},
          {"in": None, "cut": (40, 40, 10, 10), "neg": (-50, -50, 10, 10)}),
     ]:
         names = list(boxes)
 
         def build(names=names, vb=vb):
-            kids = [El("path", {"d": pd(("M", (i, i)), ("L", (i, i + 1)), ("L", (i + 1, i)), ("Z", ())), "id": nm, "fill": f"c{i}",
-                                "fill-rule": "evenodd" if nm == "cut" else "nonzero"}, name=nm) for i, nm in enumerate(names)]
+            # "ring" is a frame with a hole (two contours, nonzero): a contour has no meaning of its own, the shape is clipped as a whole
+            kids = [El("path", {"d": pd(("M", (i, i)), ("L", (i, i + 1)), ("L", (i + 1, i)), ("Z", ()), *((("M", (i + 100, i + 100)), ("L", (i + 101, i + 100)), ("L", (i + 100, i + 101)), ("Z", ())) if nm == "ring" else ())),
+                                "id": nm, "fill": f"c{i}", "fill-rule": "evenodd" if nm == "cut" else "nonzero"}, name=nm) for i, nm in enumerate(names)]
             root = El("svg", {"viewBox": vb}, kids, name="root")
             return ([make_svg(root)], {"inplace": True})
 
@@ -805,6 +807,9 @@ def check_clip_to_viewbox(repo: Repo, rep: Report, rule: str):
                 for idx, nm in enumerate(names):
                     if f"('M', ({idx}, {idx}))" in r:
                         return boxes[nm]
+                for idx, nm in enumerate(names):
+                    if f"('M', ({idx + 100}, {idx + 100}))" in r:
+                        return (6, 6, 14, 14)  # the hole of the ring on its own
                 raise Undecided("bounding box of an unknown shape")
             it.hooks[("svg_pathops", "bounding_box")] = bbox
 
